@@ -18,6 +18,7 @@ from verif.bounded import BoundedCheck, BoundedResult, Violation
 
 TOL = 0.25
 ALPHABET = [0.0, 0.125, 0.25, 0.75, 'nan', 'inf', 'warn', 'exc']
+YMODES = ('const', 'alt')       # second check variable: constant 1.0 after the first pass, or alternating 1.0 / 1.2 (moves by 0.2 < tol each pass)
 SPAN = 5
 
 
@@ -34,6 +35,7 @@ def make_model_class():
         NAMES = ENDOGENOUS + EXOGENOUS
         CHECK = ['X', 'Y']
         script = ()
+        ymode = 'const'
         log = None
         pre_exc = False
         post_exc = False
@@ -57,7 +59,7 @@ def make_model_class():
                 self._X[t] = np.log(np.float64(0.0))     # RuntimeWarning: divide by zero -> -inf
             else:
                 self._X[t] = _val(act)
-            self._Y[t] = 1.0
+            self._Y[t] = 1.0 if self.ymode == 'const' or iteration % 2 else 1.2
 
     return Scripted
 
@@ -100,7 +102,7 @@ def expected_outcome(case, as_is_replace=False):
                 exp.update(status='E', iterations=j)
             return exp
         x = float('-inf') if act == 'warn' else _val(act)
-        H.append([x, 1.0])
+        H.append([x, 1.0 if case.get('ymode', 'const') == 'const' or j % 2 else 1.2])
         exp['X'] = x
         fin_prev, fin_cur = finite_vec(H[j - 1]), finite_vec(H[j])
         prev_vec = H[j - 1]
@@ -158,6 +160,10 @@ class SolveTScripted(BoundedCheck):
                                 for h0 in (0.0, 'nan'):
                                     yield dict(script=list(script), min_iter=mi, max_iter=ma, errors=errors, failures=failures, cfe=cfe,
                                                h0=h0, t=2, offset=0, entry='solve_t')
+        # both check variables moving: each by less than tol, jointly (Euclidean norm) by more
+        for script in itertools.product([0.0, 0.2, 0.4, 0.125], repeat=3):
+            for mi in (0, 2):
+                yield dict(script=list(script), min_iter=mi, max_iter=3, errors='raise', failures='ignore', cfe=True, h0=0.0, t=2, offset=0, entry='solve_t', ymode='alt')
         rnd = random.Random(seed * 7919 + 11)
         for _ in range(20000 if tier == 'thorough' else 1500):
             ma = rnd.randint(0, 6 if tier == 'thorough' else 5)
@@ -165,7 +171,7 @@ class SolveTScripted(BoundedCheck):
                        errors=rnd.choice(['raise', 'skip', 'ignore', 'replace', 'bogus']), failures=rnd.choice(['raise', 'ignore']),
                        cfe=rnd.random() < 0.5, h0=rnd.choice([0.0, 0.0, 'nan', 'inf']), t=rnd.choice([0, 2, 4, -1, -3, -5]),
                        offset=rnd.choice([0, 0, -1, 1, 2, -2, -7, 9]), entry=rnd.choice(['solve_t', 'solve_t', 'solve_period']),
-                       pre_exc=rnd.random() < 0.07, post_exc=rnd.random() < 0.07)
+                       pre_exc=rnd.random() < 0.07, post_exc=rnd.random() < 0.07, ymode=rnd.choice(YMODES))
 
     def check(self, case, res: BoundedResult):
         import fsic  # noqa: F401
@@ -174,6 +180,7 @@ class SolveTScripted(BoundedCheck):
         h0 = _val(case['h0'])
         m = cls(list(range(2000, 2000 + SPAN)), X=h0, Y=0.0, Z=7.0)
         m.script = tuple(case['script'])
+        m.ymode = case.get('ymode', 'const')
         m.log = []
         m.pre_exc = bool(case.get('pre_exc'))
         m.post_exc = bool(case.get('post_exc'))
@@ -201,7 +208,7 @@ class SolveTScripted(BoundedCheck):
             except Exception as ex:  # noqa: BLE001
                 exc = ex
         out = []
-        key = (tuple(case['script']), case['min_iter'], case['errors'], case['failures'], case['cfe'], str(case['h0']), case['offset'],
+        key = (case.get('ymode'), tuple(case['script']), case['min_iter'], case['errors'], case['failures'], case['cfe'], str(case['h0']), case['offset'],
                t, case.get('entry'), bool(case.get('pre_exc')), bool(case.get('post_exc')))
         res.nontrivial.add(key)
         res.cover('status:' + str(m.status[nt]))
